@@ -150,16 +150,22 @@ func runStores(rep *report.Reporter, thorough bool, deadline time.Time) map[stri
 	}
 	// version boundaries first (small): every Put/Remove history of depth <= 3 over one packet per
 	// version in {0, 1, 2^31, 2^32, 2^63-1, 2^63, 2^64-2, 2^64-1}
-	vb := enumStores(rep, mkBoundaryUniverse(), 3, 3, deadline)
+	// mixed mode (Puts outside transactions interleaved with committed / rolled-back / multi-Put
+	// transactions): depth 3 on the main and the boundary universe, depth 2 (thorough 3) on the others
+	mixSmall := 2
+	if thorough {
+		mixSmall = 3
+	}
+	vb := enumStores(rep, mkBoundaryUniverse(), 3, 3, 3, deadline)
 	// look-alike names (components that differ in type only): every history of depth <= 3
-	ty := enumStores(rep, mkTypedUniverse(), 3, 3, deadline)
+	ty := enumStores(rep, mkTypedUniverse(), 3, 3, mixSmall, deadline)
 	// prefix-related packet names: every history of depth <= 3 (thorough: 4, transaction mode 3)
 	nd := 3
 	if thorough {
 		nd = 4
 	}
-	ne := enumStores(rep, mkNestedUniverse(), nd, 3, deadline)
-	cov := enumStores(rep, mkUniverse(thorough), 4, txDepth, deadline)
+	ne := enumStores(rep, mkNestedUniverse(), nd, 3, mixSmall, deadline)
+	cov := enumStores(rep, mkUniverse(thorough), 4, txDepth, 3, deadline)
 	cov["version_boundaries"] = vb
 	cov["lookalike_names"] = ty
 	cov["prefix_related_names"] = ne
@@ -285,7 +291,7 @@ func mkNestedUniverse() *sUniverse {
 	return u
 }
 
-func enumStores(rep *report.Reporter, u *sUniverse, depth, txDepth int, deadline time.Time) map[string]any {
+func enumStores(rep *report.Reporter, u *sUniverse, depth, txDepth, mixDepth int, deadline time.Time) map[string]any {
 	nops := int64(len(u.ops))
 	var total int64
 	pow := int64(1)
@@ -344,7 +350,34 @@ func enumStores(rep *report.Reporter, u *sUniverse, depth, txDepth int, deadline
 		if err := object.VerifBoltClear(b); err != nil {
 			report.Fatal("bolt clear: %v", err)
 		}
-		runStoreHistory(rep.Add, u, hist, txMode, object.NewMemoryStore(), b, &st, &smp)
+		mode := "direct"
+		if txMode {
+			mode = "tx"
+		}
+		runStoreHistory(rep.Add, u, hist, mode, object.NewMemoryStore(), b, &st, &smp)
+	}
+	// mixed mode (third region): every history of depth 2..mixDepth in every canonical assignment
+	// of D/T/G to its Puts (see storeModes)
+	var mixedRuns int64
+	evalMixed := func(d int, i int64) {
+		hist := make([]int, d)
+		for k := d - 1; k >= 0; k-- {
+			hist[k] = int(i % nops)
+			i /= nops
+		}
+		ms := mixedModes(u, hist, d <= txDepth)
+		if len(ms) == 0 {
+			return
+		}
+		b := pool.Get().(*object.BoltStore)
+		defer pool.Put(b)
+		for _, m := range ms {
+			if err := object.VerifBoltClear(b); err != nil {
+				report.Fatal("bolt clear: %v", err)
+			}
+			runStoreHistory(rep.Add, u, hist, m, object.NewMemoryStore(), b, &st, &smp)
+			atomic.AddInt64(&mixedRuns, 1)
+		}
 	}
 	// shortest histories first (so that the reported counterexample is a shortest one): the index
 	// space is covered depth by depth, each depth in parallel
@@ -361,16 +394,47 @@ func enumStores(rep *report.Reporter, u *sUniverse, depth, txDepth int, deadline
 	bounds = append(bounds, total)
 	var done int64
 	complete := true
+	mixComplete := true
+	mixDone := 0
+	runMixed := func() {
+		for d := 2; d <= mixDepth && complete && mixComplete; d++ {
+			n := int64(1)
+			for k := 0; k < d; k++ {
+				n *= nops
+			}
+			_, ok := enum.Range(n, deadline, func(j int64) { evalMixed(d, j) })
+			mixComplete = ok
+			if ok {
+				mixDone = d
+			}
+		}
+	}
+	// order: direct histories up to depth 3, the mixed-mode region (depth <= 3), then the rest
+	// (direct depth 4, transaction mode): the cheap regions are never the ones a deadline cuts
+	mixedRan := false
 	for bi := 0; bi+1 < len(bounds) && complete; bi++ {
+		if bi == 3 && !mixedRan {
+			mixedRan = true
+			runMixed()
+			if !mixComplete {
+				break
+			}
+		}
 		lo, hi := bounds[bi], bounds[bi+1]
 		dn, ok := enum.Range(hi-lo, deadline, func(j int64) { evalStore(lo + j) })
 		done += dn
 		complete = ok
 	}
+	if !mixedRan {
+		runMixed()
+	}
+	complete = complete && mixComplete
 	for _, b := range all {
 		b.Close()
 	}
 	return map[string]any{
+		"mixed_mode": map[string]any{"max_depth": mixDepth, "depth_completed": mixDone, "runs": atomic.LoadInt64(&mixedRuns),
+			"modes_per_put": "D outside any transaction / T own transaction after a rolled-back decoy transaction / G consecutive Puts in one transaction"},
 		"packets": len(u.pkts), "operations": len(u.ops), "queries": len(u.queries), "max_depth": depth, "max_depth_transaction_mode": txDepth,
 		"histories_total": total, "histories_done": done, "exhaustive": complete,
 		"get_comparisons":                            atomic.LoadInt64(&st.gets),
@@ -380,7 +444,80 @@ func enumStores(rep *report.Reporter, u *sUniverse, depth, txDepth int, deadline
 	}
 }
 
-func runStoreHistory(add func(report.Violation), u *sUniverse, hist []int, tx bool, mem ndn.Store, bolt ndn.Store, st *storeStats, smp *report.Samples) {
+// storeModes: the way each Put of a history reaches the stores, one letter per position:
+//
+//	D  Put outside any transaction
+//	T  Begin / Put of a decoy / Rollback, then Begin / Put / Commit (a transaction of its own)
+//	G  like T, but consecutive G Puts share ONE transaction (Begin, Put, Put, ..., Commit: what
+//	   Client.Produce does with the segments of an object); the transaction is committed before the
+//	   next operation that is not a G Put, and at the end of the history
+//
+// mode "direct" = all D, "tx" = all T, "mix:<letters>" = the given letters (positions holding a
+// Remove carry D). A history in mixed mode interleaves Puts outside transactions with committed and
+// rolled-back transactions in every order.
+func storeModes(mode string, n int) []byte {
+	m := make([]byte, n)
+	for i := range m {
+		switch {
+		case mode == "tx":
+			m[i] = 'T'
+		case strings.HasPrefix(mode, "mix:") && i < len(mode)-4:
+			m[i] = mode[4+i]
+		default:
+			m[i] = 'D'
+		}
+	}
+	return m
+}
+
+// mixedModes lists the canonical mixed mode strings of one history: every assignment of D/T/G to
+// its Put positions except the uniform ones "all D" (and "all T" when the transaction-mode region
+// covers this depth), with G only where at least two G Puts are adjacent (a lone G is a T).
+func mixedModes(u *sUniverse, hist []int, txCovered bool) []string {
+	var out []string
+	n := len(hist)
+	cur := make([]byte, n)
+	var rec func(i int)
+	rec = func(i int) {
+		if i == n {
+			allD, allT, puts := true, true, 0
+			for k, c := range cur {
+				if u.ops[hist[k]].put == nil {
+					continue
+				}
+				puts++
+				allD = allD && c == 'D'
+				allT = allT && c == 'T'
+				if c == 'G' {
+					l := k > 0 && cur[k-1] == 'G' && u.ops[hist[k-1]].put != nil
+					r := k+1 < n && cur[k+1] == 'G' && u.ops[hist[k+1]].put != nil
+					if !l && !r {
+						return
+					}
+				}
+			}
+			if puts == 0 || allD || (allT && txCovered) {
+				return
+			}
+			out = append(out, "mix:"+string(cur))
+			return
+		}
+		if u.ops[hist[i]].put == nil {
+			cur[i] = 'D'
+			rec(i + 1)
+			return
+		}
+		for _, c := range []byte("DTG") {
+			cur[i] = c
+			rec(i + 1)
+		}
+	}
+	rec(0)
+	return out
+}
+
+func runStoreHistory(add func(report.Violation), u *sUniverse, hist []int, mode string, mem ndn.Store, bolt ndn.Store, st *storeStats, smp *report.Samples) {
+	modes := storeModes(mode, len(hist))
 	ref := map[string]*sRef{}
 	names := map[string]enc.Name{}
 	removed := map[string]bool{}
@@ -389,19 +526,34 @@ func runStoreHistory(add func(report.Violation), u *sUniverse, hist []int, tx bo
 		n string
 		s ndn.Store
 	}{{"mem", mem}, {"bolt", bolt}}
-	mode := "direct"
-	if tx {
-		mode = "tx"
-	}
 	desc := func() string { return "[" + mode + "] " + strings.Join(labels, " ; ") }
+	open := false // a G transaction is open on both stores
+	closeGroup := func() {
+		if !open {
+			return
+		}
+		open = false
+		for _, s := range stores {
+			if err := s.s.Commit(); err != nil {
+				add(report.Violation{Clause: "C15.stores", Key: s.n + ": Commit returns an error", Detail: desc() + " :: " + err.Error(), Replay: map[string]any{"store_history": labels, "mode": mode}})
+			}
+		}
+	}
 	for k, oi := range hist {
 		op := u.ops[oi]
+		if !(op.put != nil && modes[k] == 'G') {
+			closeGroup()
+		}
 		labels = append(labels, op.label)
 		if op.put != nil {
 			wire := append([]byte(op.put.s), byte('#'), byte('0'+k))
+			tx := modes[k] == 'T' || (modes[k] == 'G' && !open)
+			joined := modes[k] == 'G' && open
 			for _, s := range stores {
 				var err error
-				if tx {
+				if joined {
+					err = s.s.Put(op.put.name, op.put.ver, wire)
+				} else if tx {
 					// transaction mode: the Put is preceded by a transaction that is ROLLED BACK and
 					// that had put a decoy (another wire, a larger version) under the same name: a
 					// rolled-back packet was never published and must never be served
@@ -416,8 +568,10 @@ func runStoreHistory(add func(report.Violation), u *sUniverse, hist []int, tx bo
 					}
 					if err = s.s.Begin(); err == nil {
 						err = s.s.Put(op.put.name, op.put.ver, wire)
-						if e2 := s.s.Commit(); err == nil {
-							err = e2
+						if modes[k] != 'G' {
+							if e2 := s.s.Commit(); err == nil {
+								err = e2
+							}
 						}
 					}
 				} else {
@@ -426,6 +580,9 @@ func runStoreHistory(add func(report.Violation), u *sUniverse, hist []int, tx bo
 				if err != nil {
 					add(report.Violation{Clause: "C15.stores", Key: s.n + ": Put returns an error", Detail: desc() + " :: " + err.Error(), Replay: map[string]any{"store_history": labels, "mode": mode}})
 				}
+			}
+			if modes[k] == 'G' {
+				open = true
 			}
 			ref[op.put.s] = &sRef{op.put.ver, wire}
 			names[op.put.s] = op.put.name
@@ -447,6 +604,7 @@ func runStoreHistory(add func(report.Violation), u *sUniverse, hist []int, tx bo
 			}
 		}
 	}
+	closeGroup()
 	atomic.AddInt64(&st.histories, 1)
 	bad := func(clause, key, detail string) {
 		add(report.Violation{Clause: clause, Key: key, Detail: "store history " + desc() + " :: " + detail,
